@@ -42,6 +42,18 @@ EDITS = [
     ("end_location_local", "codelimit/common/Scanner.py", ["C01", "C05", "C12"],
      [("                end_location = Location(\n                    last_token.location.line,\n                    last_token.location.column + len(last_token.value),\n                )",
        "                end_column = last_token.location.column + len(last_token.value)\n                end_location = Location(last_token.location.line, end_column)")]),
+    ("dedupe_same_path", "codelimit/common/CheckResult.py", ["C02", "C12", "C03"],
+     [("        self.file_list.append((file, measurements))\n        self.hard_to_maintain +=",
+       "        if any(f == file for f, _ in self.file_list):\n            return  # the very same path given twice: list and count it once\n        self.file_list.append((file, measurements))\n        self.hard_to_maintain +=")]),
+    ("lexer_memo_by_name", "codelimit/common/Scanner.py", ["C06", "C11", "C09"],
+     [("def scan_path(path: Path, cached_report", "_LEXERS_BY_NAME: dict = {}\n\n\ndef _lexer_for_name(rel_path):\n    # the lexer depends on the file name only: remember it per full name\n    key = rel_path.name\n    if key not in _LEXERS_BY_NAME:\n        _LEXERS_BY_NAME[key] = get_lexer_for_filename(rel_path)\n    return _LEXERS_BY_NAME[key]\n\n\ndef scan_path(path: Path, cached_report"),
+      ("                lexer = get_lexer_for_filename(rel_path)\n                lexer_name = lexer.__class__.name\n                file_path = os.path.join(root, file)",
+       "                lexer = _lexer_for_name(rel_path)\n                lexer_name = lexer.__class__.name\n                file_path = os.path.join(root, file)")]),
+    ("sorted_walk", "codelimit/common/Scanner.py", ["C06", "C11", "C09", "C12"],
+     [('        files = [f for f in files if not f[0] == "."]\n        dirs[:] = [d for d in dirs if not d[0] == "."]\n        for file in files:\n            rel_path = Path(',
+       '        files = sorted(f for f in files if not f[0] == ".")\n        dirs[:] = sorted(d for d in dirs if not d[0] == ".")\n        for file in files:\n            rel_path = Path(')]),
+    ("empty_profile_early_return", "codelimit/common/report/Report.py", ["C19"],
+     [("        total = sum(profile)\n        unmaintainable = ceil(", "        total = sum(profile)\n        if total == 0:\n            return 100, 0, 0, 0\n        unmaintainable = ceil(")]),
 ]
 out_root = "/verif/seeded/benign"
 for name, rel, checks, repl in EDITS:
